@@ -239,11 +239,18 @@ func lower(doc Doc, l Layout) []symObj {
 			}
 			parts[0] = append(pad, parts[0]...)
 		}
+		emptyAt := -1
+		if l.EmptyPart {
+			// one more content stream without any data (/Length 0, no filter): legal, the streams of the array
+			// are concatenated (§7.8.2) and a stream may be empty (§7.3.8.2: Length = number of bytes, 0 allowed)
+			emptyAt = p.ID % (len(parts) + 1)
+			parts = append(parts[:emptyAt:emptyAt], append([][]byte{{}}, parts[emptyAt:]...)...)
+		}
 		refs := Arr{}
 		for j, part := range parts {
 			cid := fmt.Sprintf("content:%d:%d", p.ID, j)
 			var chain []string
-			if len(l.Filters) > 0 {
+			if len(l.Filters) > 0 && j != emptyAt {
 				chain = l.Filters[streamNo%len(l.Filters)]
 			}
 			streamNo++
